@@ -53,12 +53,15 @@ def negatives(rng, streams):
     out = []
     for kind, s, t, ans, p in streams:
         if kind == "http" and p is not None:
-            for f in ("header_no_colon", "nondigit_minor", "no_final_empty_line", "misspelt_http"):
+            for f in rng.sample(["header_no_colon", "nondigit_minor", "no_final_empty_line", "misspelt_http"], 2):
                 out.append(("http_neg", http.fault(rng, p, f), None, False, None))
             # a foreign preface followed by a valid request: unanswered in one piece, so unanswered under every cut
             # (in particular the cut that falls exactly at the start of the request)
             pre = rng.choice([b"PROXY TCP4 192.0.2.1 192.0.2.2 1 80\r\n", bytes(rng.randrange(1, 256) | 0x80 for _ in range(rng.randrange(9, 40))), b"\r\n\r\n   \r\n"])
-            out.append(("http_neg", pre + s, None, False, None))
+            out.insert(0, ("http_neg", pre + s, None, False, None))
+        if kind == "rpc":
+            pre = bytes(rng.randrange(1, 256) | 0x80 for _ in range(rng.randrange(9, 40)))
+            out.insert(0, ("http_neg", pre + s, None, False, None))
     return out
 
 
@@ -169,7 +172,7 @@ def shard(ctx, budget_s, n_http, n_rpc, maxlen):
     cfg = gen.rnd_config(rng, deny=False, logger="n", level=0)
     ctx.case(cfg)
     streams = gen_streams(rng, n_http, n_rpc, maxlen)
-    streams += negatives(rng, streams)[:2 if ctx.tier == "quick" else 8]
+    streams += negatives(rng, streams)[:6 if ctx.tier == "quick" else 24]
     hist = ctx.extra.setdefault("first_cut_histogram", {})
     for si, (kind, stream, trig, _ans, _p) in enumerate(streams):
         if time.time() > deadline and si > 0:
